@@ -37,16 +37,30 @@
    the newest message ([atomics.order] p10).  No load buffering, no consume, no fences
    (none occur in the source).
 
-   Results:
-     lr_hb_race_free   all-SeqCst: every conforming trace has race = false;
-     lr_hb_values      all-SeqCst: what a reader reads through its handle is the sequence that was
-                       committed when it completed lock_shared (no stale, no torn copy);
+   Results (N = bound on the thread ids, arbitrary; tr = any list of actions):
+     lr_hb_race_free          all-SeqCst: trace_ok N sc_orders init tr -> race (run N sc_orders init tr) = false;
+     lr_hb_reads_after_write  ... the last write to a held handle's copy happens-before the holder;
+     lr_hb_write_after_reads  ... in the writing phases the last write to either copy and every read of
+                              the copy readers are not directed to happen-before the mutex owner;
+     lr_hb_values             all-SeqCst: what a reader reads through its handle is the sequence that was
+                              committed when it completed lock_shared (no stale, no torn copy);
+     lr_hb_acquire_current    ... and that handle was completed on the copy holding the committed sequence;
      refutations by vm_compute (conforming traces that end with race = true):
        lr_relaxed_rl_load_refuted   reader's m_readingLeft load Relaxed
        lr_relaxed_dec_refuted       reader's counter-- Relaxed
        lr_relaxed_drain_refuted     writer's drain load Relaxed
        lr_relacq_flip_refuted       flip store Release + reader's load Acquire (Dekker failure:
-                                    SeqCst is necessary, release/acquire is not enough). *)
+                                    SeqCst is necessary, release/acquire is not enough).
+   Proof: two invariants over conforming traces.  InvA is the protocol invariant of LRProofs.v restated
+   for this machine (mutex ownership, per-pc writer knowledge, phase-indexed handle sides, counters =
+   number of registered threads, copies vs. committed sequence).  InvB adds the clocks: B_w (mutex),
+   B_v (the newest m_readingLeft message releases the last write of the copy it designates), B_h,
+   B_c (the newest counter message carries, through the release sequence of the RMWs, the clock of every
+   decrement), B_rd / B_pa / B_pc2 (every read of a copy is by a current holder, or known to the
+   owner, or covered by a decrement of a counter the owner has yet to drain - both drains are used,
+   in the order of the source).
+   NOTE for importers: this file re-uses short names (st, step, init, run, pc, phase, PA, lrl, fid ...)
+   that also exist in LRModel / LRProofs; `Require` it without `Import` and qualify (LRViews.x). *)
 From Coq Require Import List Arith ZArith Lia Bool.
 Import ListNotations.
 From GV Require Import Sched Events Views.
